@@ -1,10 +1,12 @@
 //! Conformance drivers for pallas-crypto (C10..C14).
+mod hash;
 mod kes;
 mod memsec;
 
 fn main() {
     let args = pv_core::Args::parse();
     match args.cmd.as_str() {
+        "hash-trace" => hash::trace(&args),
         "kes-trace" => kes::trace(&args),
         "memsec-replay" => memsec::replay(&args),
         "memsec-trace" => memsec::trace(&args),
